@@ -18,7 +18,7 @@ TSAN := -fsanitize=thread
 LIBSRCS := $(shell python3 $(ROOT)tools/libsrcs.py $(REPO))
 LIBOBJS_ASAN := $(patsubst src/%.cc,$(B)/asan/lib/%.o,$(LIBSRCS))
 
-WRAP_VFS := read write pread pwrite open close fstat stat lstat fcntl poll opendir fdopendir readdir closedir unlink rmdir fopen fdopen lseek ftruncate openat fstatat unlinkat readv writev ppoll
+WRAP_VFS := read write pread pwrite open close fstat stat lstat fcntl poll opendir fdopendir readdir closedir unlink rmdir fopen fdopen lseek ftruncate openat fstatat unlinkat readv writev ppoll getrandom getentropy dirfd scandir
 WRAPFLAGS_VFS := $(foreach s,$(WRAP_VFS),-Wl,--wrap=$(s))
 
 .PHONY: setup clean engine
@@ -91,7 +91,7 @@ $(B)/sim_par_tsan: $(B)/tsan/sim_par.o $(B)/tsan/librepo.a $(BUILD)/fw/vpar.o $(
 	$(CXX) $(TSAN) $^ -lz -lpthread -o $@
 
 # ---- sim-proc: real Process.cc against the lock-stepped child
-WRAP_PROC := fork waitpid wait4 kill poll ppoll read write close gettimeofday pipe pipe2
+WRAP_PROC := fork waitpid wait4 waitid kill poll ppoll read write close gettimeofday pipe pipe2
 WRAPFLAGS_PROC := $(foreach s,$(WRAP_PROC),-Wl,--wrap=$(s))
 
 $(B)/sim_proc: $(B)/asan/sim_proc.o $(B)/asan/librepo.a $(BUILD)/fw/vsim.o $(BUILD)/fw/vsim-child
